@@ -1,6 +1,7 @@
 package formatsd
 
 import (
+	"encoding/json"
 	"bytes"
 	"fmt"
 	"hash/fnv"
@@ -312,7 +313,8 @@ func digest(recs []Rec) []interface{} {
 	out := []interface{}{}
 	for _, r := range recs {
 		if k, ok := r["kind"]; ok && (k == "err" || k == "panic" || k == "hang") {
-			out = append(out, k)
+			// same shape as a record digest so that the specification can compare them (length -1: a mark)
+			out = append(out, []interface{}{[]int{}, []int{}, -1, map[interface{}]int{"err": 1, "panic": 2, "hang": 3}[k]})
 			continue
 		}
 		h := fnv.New32a()
@@ -444,6 +446,104 @@ func Random(w *vt.W, rng *rand.Rand, n int, big bool) {
 		}
 		w.Emit(vt.Ev{"op": "bigmut", "fmt": format, "cfg": cfg, "valid": false, "bytes": len(dt), "damage": what,
 			"nlines": bytes.Count(dt, []byte{'\n'}) + 1, "stop": dstop, "marks": marks, "detail": ddetail})
+	}
+	BigLines(w, rng, n/4+24)
+}
+
+// featDigest: digests of feature records (BED, GFF) in the shape of digest().
+func featDigest(recs []Rec) []interface{} {
+	out := []interface{}{}
+	for _, r := range recs {
+		if k, ok := r["kind"]; ok && (k == "err" || k == "panic" || k == "hang") {
+			out = append(out, []interface{}{[]int{}, []int{}, -1, map[interface{}]int{"err": 1, "panic": 2, "hang": 3}[k]})
+			continue
+		}
+		b, _ := json.Marshal(r) // map keys are sorted
+		h := fnv.New32a()
+		h.Write(b)
+		out = append(out, []interface{}{[]int{}, []int{}, len(b), int(h.Sum32() % 1000000007)})
+	}
+	return out
+}
+
+// BigLines: BED and GFF files with one line whose length (without the line terminator) sits at a boundary of
+// bufio's 4096-byte buffer, between ordinary lines, under LF / CRLF / no final newline (C04; C02 as written).
+func BigLines(w *vt.W, rng *rand.Rand, n int) {
+	targets := []int{4093, 4094, 4095, 4096, 4097, 8190, 8191, 8192, 8193}
+	for id := 0; id < n; id++ {
+		format := []string{"bed", "gff"}[id%2]
+		cfg := randomCfg(rng, format)
+		gen := func() Rec {
+			for {
+				var r Rec
+				if format == "bed" {
+					r = genBed(rng)
+				} else {
+					r = genGff(rng)
+				}
+				if k, ok := r["kind"]; !ok || k == "feature" {
+					return r
+				}
+			}
+		}
+		field := "chrom"
+		if format == "gff" {
+			field = "seqname"
+		}
+		long := gen()
+		if _, ok := long[field]; !ok {
+			continue
+		}
+		target := targets[rng.Intn(len(targets))]
+		// pad the name so that the written line has exactly the target length
+		long[field] = ints("x")
+		t0, _, werr := WriteAll(format, cfg, []Rec{long}, id)
+		if werr != "" || len(t0) == 0 {
+			continue
+		}
+		last := bytes.LastIndexByte(t0[:len(t0)-1], '\n') + 1 // the record line is the last line (a gff header may precede it)
+		pad := target - (len(t0) - 1 - last)
+		if pad < 0 {
+			continue
+		}
+		long[field] = ints("x" + strings.Repeat("y", pad))
+		recs := []Rec{gen(), long, gen()}
+		text, ns, werr := WriteAll(format, cfg, recs, id)
+		total := 0
+		for _, x := range ns {
+			total += x
+		}
+		bad := werr
+		hdr, _ := cfg["header"].(bool)
+		if total != len(text) && !hdr { // the header line a GFF writer emits first is not part of any Write's count
+			bad = fmt.Sprintf("Write returned %d bytes in total, %d were emitted", total, len(text))
+		}
+		ops := []string{}
+		t := text
+		switch id / 2 % 4 {
+		case 1:
+			ops = append(ops, "crlf")
+			t = bytes.ReplaceAll(t, []byte{'\n'}, []byte{'\r', '\n'})
+		case 2:
+			ops = append(ops, "no final newline")
+			t = t[:len(t)-1]
+		case 3:
+			ops = append(ops, "crlf", "no final newline")
+			t = bytes.ReplaceAll(t[:len(t)-1], []byte{'\n'}, []byte{'\r', '\n'})
+		}
+		expect := recs
+		if format == "bed" {
+			expect = make([]Rec, len(recs))
+			for i, r := range recs {
+				expect[i] = firstColumns(r, num(cfg["r"]))
+			}
+		}
+		results, _, detail := ReadAll(format, cfg, t, id)
+		for _, r := range results {
+			delete(r, "_span")
+		}
+		w.Emit(vt.Ev{"op": "big", "fmt": format, "cfg": cfg, "valid": true, "bytes": len(t), "layout": ops, "linelen": target,
+			"want": featDigest(expect), "got": featDigest(results), "bad": bad, "detail": detail})
 	}
 }
 
